@@ -27,7 +27,10 @@ EXPLANATION = ("T1 proves, relative to a trusted hyper-h2 contract and for every
                "(whatever other streams have buffered), otherwise strictly after X's data and they end the stream; the END_STREAM flag stays "
                "with the last byte. The proofs use representative stream ids and a bounded number of waiting "
                "streams/events; frame-level interleavings, segmentation and the real hyper-h2 state machines are covered bounded in T2 "
-               "(two plain hyper-h2 peers around the real HttpLayer).")
+               "(two plain hyper-h2 peers around the real HttpLayer). HttpStream.check_body_size never closes a connection: an oversized response "
+               "cancels only this stream's own upstream stream. Known findings KF-C05-1 (streams waiting for capacity are not told when the "
+               "upstream connection dies) and KF-C05-2 (check_invalid closes the shared upstream connection) are excluded by their class "
+               "predicates and re-witnessed on every run.")
 ASSUMPTIONS = [
     "hyper-h2 (h2.connection.H2Connection / BufferedH2Connection) is trusted: open_outbound_streams counts our open streams, remote_settings.max_concurrent_streams is the peer's current limit, get_next_available_stream_id() is fresh and increasing, receive_data reports each frame as an event with the right stream id",
     "T1 uses representative ids (client streams 5, 9 open as 1, 3; 21 and 17 waiting, 21 first; 13 new): the code uses ids only as dictionary keys",
@@ -1136,6 +1139,110 @@ def s_protocol_error(vc):
     vc.ensure("own_id_unchanged", vc.eq(stream.stream_id, MY_ID))
 
 
+# ---------------------------------------------------------------------------------------------
+# death of the upstream connection: every client stream that depends on it is told
+
+@scenario("Http2Client.upstream_connection_closed", functions=[M2 + ":Http2Client._handle_event", M2 + ":Http2Client._handle_event2", M2 + ":Http2Connection._handle_event", M2 + ":Http2Connection.close_connection"],
+          asserts_are_obligations=True)
+def s_h2c_closed(vc):
+    from mitmproxy.proxy.layers.http._http2 import StreamState as SS
+    nq = vc.case("waiting_streams", [0, 1, 2])
+    q_evs = {21: [mk_http_event(vc, "RequestHeaders", 21), mk_http_event(vc, "RequestEndOfMessage", 21)], 17: [mk_http_event(vc, "RequestHeaders", 17)]}
+    queued = [(sid, q_evs[sid]) for sid in [21, 17][:nq]]
+    layer, stub = mk_h2client(vc, queued, None, 2, 2)
+    layer.streams = vc.dict([(1, SS.EXPECTING_HEADERS), (3, SS.HEADERS_RECEIVED)])
+    ev = vc.new("mitmproxy.proxy.events:ConnectionClosed", connection=layer.conn)
+    out = vc.call(M2 + ":Http2Client._handle_event", layer, ev)
+    vc.ensure("no_exception", out.ok)
+    if not out.ok:
+        return
+    tr = out.trace
+    errs = [c for c in tr if is_cmd(c, "ReceiveHttp")]
+    told = [conc(c.event.stream_id) for c in errs]
+    vc.ensure("connection_closed_towards_the_server", any(is_cmd(c, "CloseConnection") and c.connection is layer.conn for c in tr))
+    vc.ensure("only_error_reports", all(isa(c.event, _cls(EV + ":ResponseProtocolError")) for c in errs))
+    vc.ensure("open_streams_told_once_under_their_client_ids", sorted(t for t in told if t in (5, 9)) == [5, 9])
+    vc.ensure("nobody_else_told", all(t in (5, 9, 21, 17) for t in told))
+    # "none is lost": a request still waiting for upstream capacity depends on this connection too
+    waiting = [sid for sid, _ in queued]
+    vc.ensure_kf("waiting_streams_told_once_too", all(told.count(sid) == 1 for sid in waiting), "KF-C05-1", nq > 0)
+    h = (layer.fields if vc.mode == "sym" else layer.__dict__).get("_handle_event")
+    vc.ensure("connection_done", h is not None)
+
+
+# ---------------------------------------------------------------------------------------------
+# HttpStream.check_body_size: an oversized message aborts this exchange on its own streams only
+
+@scenario("HttpStream.check_body_size", functions=[HS + ".check_body_size"], asserts_are_obligations=True)
+def s_check_body_size(vc):
+    """The upstream connection may be shared by many streams (HTTP/2|3): exceeding body_size_limit cancels this stream's own
+    upstream stream (RequestProtocolError for self.stream_id towards the server) and tells this stream's client side; the
+    connection itself is never closed from here."""
+    from mitmproxy.proxy.layers.http._events import ErrorCode
+    is_request = vc.case("message", ["request", "response"]) == "request"
+    late = vc.case("noticed", ["from_headers", "while_buffering"]) == "while_buffering"
+    MY_ID = 7
+    client, server = mk_client(vc), mk_server(vc)
+    other_server = mk_server(vc, "flowsrv")
+    ctx = mk_context(vc, client, server, mk_options(vc, proxy_debug=False, stream_large_bodies=None, body_size_limit="limit"))
+    flow_ = vc.new("mitmproxy.http:HTTPFlow", client_conn=client, server_conn=server, request=vc.new("mitmproxy.http:Request", data=None),
+                   response=None if is_request else vc.new("mitmproxy.http:Response", data=None), error=None, live=True, websocket=None,
+                   id="flow-id", intercepted=False, marked="", is_replay=None, metadata=vc.dict([]), comment="", timestamp_created=1.0, _backup=None)
+    buffered = vc.sym_bytes("buffered_body", 64)
+    if late:
+        vc.assume(len_(buffered) > 0)
+    empty = b"" if vc.mode == "sym" else bytearray()
+    mine = buffered if vc.mode == "sym" else bytearray(buffered)
+    stream = vc.new(HS, context=ctx, debug=None, _paused=None, _paused_event_queue=vc.deque([]), flow=flow_, stream_id=MY_ID, child_layer=None,
+                    request_body_buf=(mine if (late and is_request) else empty), response_body_buf=(mine if (late and not is_request) else empty))
+    stream.client_state = vc.bound(stream, HS + ".state_consume_request_body")
+    stream.server_state = vc.bound(stream, HS + ".state_wait_for_response_headers")
+    announced = vc.opt("announced_size", vc.sym_int("announced_size_v", lo=-1))
+    limit = vc.sym_int("limit", lo=0)
+
+    def expected_size(v, request, response=None):
+        return announced
+
+    def parse_size(v, text):
+        if v.mode == "sym":
+            return limit if (not isnone(text) and lift(text).concrete() == "limit") else v.lift(None)
+        return limit if text == "limit" else None
+
+    vc.summary("mitmproxy.proxy.layers.http:expected_http_body_size", expected_size)      # the name the native run looks up
+    vc.summary("mitmproxy.net.http.http1.read:expected_http_body_size", expected_size)   # the defining module (symbolic dispatch)
+    vc.summary("mitmproxy.utils.human:parse_size", parse_size)
+    out = vc.call(HS + ".check_body_size", stream, is_request)
+    vc.ensure("no_exception", out.ok)
+    if not out.ok:
+        return
+    tr = out.trace
+    vc.ensure("never_closes_a_connection", not any(is_cmd(c, "CloseConnection") or is_cmd(c, "CloseTcpConnection") for c in tr))
+    if late:
+        size = len_(buffered)
+        known = True
+    else:
+        known = Not(isnone(announced)) if vc.mode == "sym" else announced is not None
+        size = (announced.alts[1][1] if vc.mode == "sym" else announced)
+    over = vc.branch(And(known, size > limit)) if vc.mode == "sym" else (known and size > limit)
+    if not over:
+        vc.ensure("within_limit.nothing_happens", len(tr) == 0 and vc.eq(out.result, False) is not False)
+        vc.ensure("within_limit.result_false", vc.eq(out.result, False))
+        return
+    vc.ensure("over.stops_processing", vc.eq(out.result, True))
+    sends = [c for c in tr if is_cmd(c, "SendHttp")]
+    to_client = [c for c in sends if c.connection is client]
+    to_server = [c for c in sends if c.connection is server]
+    vc.ensure("over.client_side_of_this_stream_told_once", And(isa(to_client[0].event, _cls(EV + ":ResponseProtocolError")), vc.eq(to_client[0].event.stream_id, MY_ID),
+                                                                vc.eq(to_client[0].event.code, ErrorCode.REQUEST_TOO_LARGE if is_request else ErrorCode.RESPONSE_TOO_LARGE)) if len(to_client) == 1 else False)
+    if is_request:
+        vc.ensure("over.request.nothing_sent_upstream", to_server == [])
+    else:
+        vc.ensure("over.response.own_upstream_stream_cancelled_once", And(isa(to_server[0].event, _cls(EV + ":RequestProtocolError")), vc.eq(to_server[0].event.stream_id, MY_ID)) if len(to_server) == 1 else False)
+    vc.ensure("over.only_hooks_and_those_sends", all(is_cmd(c, "SendHttp") or is_cmd(c, "HttpErrorHook") or is_cmd(c, "HttpRequestHeadersHook") or is_cmd(c, "HttpResponseHeadersHook") for c in tr)
+              and len(sends) == len(to_client) + len(to_server) and sum(1 for c in tr if is_cmd(c, "HttpErrorHook")) == 1)
+    vc.ensure("over.flow_is_over_with_error", And(vc.eq(flow_.live, False), not isnone(flow_.error)))
+
+
 # =============================================================================================
 # T2 (bounded)
 
@@ -1169,7 +1276,7 @@ def interleavings(seqs):
 class H2World:
     """client peer (plain hyper-h2) -- real HttpLayer -- server peer (plain hyper-h2), one upstream connection"""
 
-    def __init__(self, max_streams=None):
+    def __init__(self, max_streams=None, **options):
         import h2.settings
         from mitmproxy.proxy import mode_specs
         from mitmproxy.proxy.layers import http as H, tls
@@ -1182,7 +1289,7 @@ class H2World:
         self._tls, self._orig = tls, tls.ServerTLSLayer
         tls.ServerTLSLayer = TLS
         self.H2Peer = H2Peer
-        opts = sansio.make_options(connection_strategy="lazy")
+        opts = sansio.make_options(connection_strategy="lazy", **options)
         self.client = sansio.make_client()
         self.client.alpn, self.client.tls = b"h2", True
         self.client.proxy_mode = mode_specs.ProxyMode.parse("regular")
@@ -1631,6 +1738,162 @@ def _crossed_cancel_specs():
     return out
 
 
+def check_body_limit_world(b, params):
+    """body_size_limit=10: two (or three) concurrent requests over one HTTP/2 upstream connection, one response exceeds the limit
+    (announced by content-length = 'early', or only noticed while the DATA arrives = 'late'), the others are ordinary. The
+    oversized exchange is aborted on its own streams; every other stream gets its own complete response."""
+    import h2.events
+    from props.C06 import h2_message
+    big_first, early, n_other, other_shape = params
+    inp = dict(kind="body-size-limit", oversized_answered_first=big_first, announced_by_content_length=early, other_streams=n_other, other_shape=other_shape)
+    w = H2World(None, body_size_limit="10")
+    try:
+        tags = ["big"] + [f"ok{i}" for i in range(n_other)]
+        sids = {}
+        for tag in tags:
+            sids[tag] = w.next_sid
+            w.next_sid += 2
+            w.cp.h2.send_headers(sids[tag], [(b":method", b"GET"), (b":scheme", b"https"), (b":authority", b"a.test"), (b":path", b"/" + tag.encode()), (b"x-id", tag.encode())], end_stream=True)
+        w.cp.flush()
+        w.pump_server()
+        w.pump_server()
+        up = {dict(w.server_request(u)["headers"])[b"x-id"].decode(): u for u in w.server_seen}
+        if set(up) != set(tags) or len({id(c) for c, d in w.drv.sent_chunks if c is not w.client}) != 1:
+            b.fail("limit.setup_two_streams_on_one_upstream_connection", inp, f"{up}")
+            return
+        order = tags if big_first else tags[1:] + tags[:1]
+        for tag in order:
+            h = w.sp.h2
+            try:
+                if tag == "big":
+                    h.send_headers(up[tag], [(b":status", b"200"), (b"x-for", b"big")] + ([(b"content-length", b"50")] if early else []), end_stream=False)
+                    w.sp.flush()
+                    w.pump_server()
+                    h.send_data(up[tag], b"B" * 50, end_stream=False)   # the stream is still open when the limit is hit
+                else:
+                    h.send_headers(up[tag], [(b":status", b"200"), (b"x-for", tag.encode())], end_stream=other_shape == "He")
+                    if other_shape != "He":
+                        h.send_data(up[tag], b"[ok]", end_stream=True)
+            except Exception as e:   # the stream was reset by mitmproxy in the meantime: fine for the oversized one
+                if tag != "big":
+                    b.fail("limit.other_upstream_streams_stay_usable", inp, f"server cannot answer /{tag}: {e!r}")
+            w.sp.flush()
+            w.pump_server()
+        w.cp.pump()
+        if w.sp.error is not None:
+            b.fail("limit.server_peer_accepts_upstream_frames", inp, repr(w.sp.error))
+        if any(isinstance(e, h2.events.ConnectionTerminated) for e in w.server_events) or any(c is not w.client and not half for c, half in w.drv.closed):
+            b.fail("limit.shared_upstream_connection_stays_open", inp, "mitmproxy closed the upstream connection that carries the other streams")
+        big_up = w.server_request(up["big"])
+        if big_up["reset"] is None:
+            b.fail("limit.oversized_upstream_stream_is_cancelled", inp, "no RST_STREAM on the upstream stream of the oversized response")
+        for u_tag in tags[1:]:
+            if w.server_request(up[u_tag])["reset"] is not None:
+                b.fail("limit.only_the_oversized_upstream_stream_is_reset", inp, f"upstream stream of /{u_tag} was reset")
+        for tag in tags:
+            m = h2_message(w.cp.events, sids[tag], False)
+            hd = dict(m["headers"] or [])
+            if tag == "big":
+                if hd.get(b"x-for") == b"big" and m["body"] == b"B" * 50:
+                    b.fail("limit.oversized_response_not_delivered", inp, "the 50-byte body passed a 10-byte limit")
+                if m["headers"] is None and m["reset"] is None:
+                    b.fail("limit.oversized_exchange_is_answered_with_an_error", inp, "client stream saw nothing")
+            else:
+                want_body = b"" if other_shape == "He" else b"[ok]"
+                if hd.get(b":status") != b"200" or hd.get(b"x-for") != tag.encode() or m["body"] != want_body or not m["ended"] or m["reset"] is not None:
+                    b.fail("limit.other_streams_get_their_own_response", inp, f"/{tag}: {m}")
+    except Exception as e:
+        import traceback
+        b.fail("limit.no_crash", inp, f"{type(e).__name__}: {e} {traceback.format_exc()[-600:]}")
+    finally:
+        w.close()
+
+
+def check_upstream_death(b, how, n_waiting):
+    """server limit 1: request 0 is open upstream, requests 1..n wait in Http2Client.stream_queue; then the upstream connection
+    dies (TCP close | GOAWAY). Every request that depended on that connection must be answered (error) - none may be lost."""
+    from props.C06 import h2_message
+    inp = dict(kind="upstream-death", how=how, waiting=n_waiting)
+    w = H2World(1)
+    try:
+        w.client_action(0, ("H", True))
+        w.deliver_client()
+        w.pump_server()
+        w.pump_server()
+        w.cp.pump()
+        for k in range(1, n_waiting + 1):
+            w.client_action(k, ("H", True))
+        w.deliver_client()
+        w.cp.pump()
+        if len(w.server_seen) != 1:
+            b.fail("death.setup_requests_wait_for_capacity", inp, str(w.server_seen))
+            return
+        if how == "tcp-close":
+            w.drv.close(w.sp.mitm_conn)
+        else:
+            w.sp.h2.close_connection(0)
+            w.sp.flush()
+        w.cp.pump()
+        for k, sid in w.sid_of.items():
+            m = h2_message(w.cp.events, sid, False)
+            answered = (m["headers"] is not None and m["ended"]) or m["reset"] is not None
+            if not answered:
+                b.fail("death.open_stream_is_told" if k == 0 else "death.waiting_streams_are_told_when_the_upstream_connection_dies", inp,
+                       f"request {k} (client stream {sid}) got nothing: {m}; flow still live: {[f.live for f in w.flows if f.request.path == f'/s{k}']}")
+    except Exception as e:
+        import traceback
+        b.fail("death.no_crash", inp, f"{type(e).__name__}: {e} {traceback.format_exc()[-500:]}")
+    finally:
+        w.close()
+
+
+def check_invalid_response_world(b, other_first):
+    """default options (validate_inbound_headers on): one upstream HTTP/2 stream answers with an invalid head (two different
+    content-length fields); the other stream on the same connection is healthy and must still get its own response."""
+    from props.C06 import h2_message
+    inp = dict(kind="invalid-response-on-shared-upstream", healthy_answered_first=other_first)
+    w = H2World(None)
+    try:
+        for k in (0, 1):
+            w.client_action(k, ("H", True))
+        w.deliver_client()
+        w.pump_server()
+        w.pump_server()
+        up = {dict(w.server_request(u)["headers"])[b"x-id"]: u for u in w.server_seen}
+        if set(up) != {b"0", b"1"}:
+            b.fail("invalid.setup", inp, str(up))
+            return
+
+        def bad():
+            w.sp.h2.send_headers(up[b"0"], [(b":status", b"200"), (b"x-for", b"0"), (b"content-length", b"1"), (b"content-length", b"2")], end_stream=False)
+
+        def good():
+            w.sp.h2.send_headers(up[b"1"], [(b":status", b"200"), (b"x-for", b"1")], end_stream=True)
+
+        for step in ((good, bad) if other_first else (bad, good)):
+            try:
+                step()
+            except Exception as e:
+                if step is good:
+                    b.fail("invalid.other_streams_get_their_own_response", inp, f"the shared upstream connection was closed by mitmproxy, the server cannot answer the healthy request: {e}")
+                    return
+            w.sp.flush()
+            w.pump_server()
+        w.cp.pump()
+        bad_m = h2_message(w.cp.events, w.sid_of[0], False)
+        if dict(bad_m["headers"] or []).get(b"x-for") == b"0":
+            b.fail("invalid.bad_response_not_forwarded", inp, str(bad_m))
+        m = h2_message(w.cp.events, w.sid_of[1], False)
+        hd = dict(m["headers"] or [])
+        if hd.get(b":status") != b"200" or hd.get(b"x-for") != b"1" or not m["ended"]:
+            b.fail("invalid.other_streams_get_their_own_response", inp, f"healthy request got {hd.get(b':status')} {m['body'][:60]!r}")
+    except Exception as e:
+        import traceback
+        b.fail("invalid.no_crash", inp, f"{type(e).__name__}: {e} {traceback.format_exc()[-400:]}")
+    finally:
+        w.close()
+
+
 def check_error_page(b, n):
     """mitmproxy itself writes a body larger than one frame with END_STREAM in a single send_data call: the HTTP/2 error page for
     an upstream connect error whose message has n bytes. The client must get status, the whole page and the end of the stream."""
@@ -1724,6 +1987,18 @@ def bounded(tier, seed):
     for params in itertools.product(("response", "request"), (False, True), (True, False), (False, True), (0, 5), (False, True), chunks):
         b.case(("flow",) + params, nontrivial=True)
         check_flow_world(b, params)
+    # body_size_limit: an oversized response on one stream of a shared HTTP/2 upstream connection
+    for params in itertools.product((True, False), (True, False), (1, 2), ("He", "H.De")):
+        b.case(("body-size-limit",) + params, nontrivial=True)
+        check_body_limit_world(b, params)
+    for other_first in (False, True):
+        b.case(("invalid-response", other_first), nontrivial=True)
+        check_invalid_response_world(b, other_first)
+    # the upstream connection dies while requests wait for capacity
+    for how in ("tcp-close", "goaway"):
+        for nw in (0, 1, 2):
+            b.case(("upstream-death", how, nw), nontrivial=nw > 0)
+            check_upstream_death(b, how, nw)
     # a single write larger than one frame that also ends the stream (and, for the largest, exceeds the initial window)
     for n in (100, 16000, 16384, 20000, 40000, 70000, 140000):
         b.case(("error-page", n), nontrivial=n > 16384)
